@@ -7,20 +7,24 @@ yields exactly that one packet; framer->accessor direction: for framer-yielded p
 the layout fields of the first six bytes (all 2^16 values of header words 1 and 2; word 3 via lengths);
 rejection: out-of-range / empty / oversized inputs must raise ValueError and construct nothing.
 """
+import io as io_mod
 import itertools
 
 import icontract
 
 from vmon import bits
+from vmon import sources as sources_mod
 from vmon.contracts import MonitorViolation
 from vmon.libutil import monitored
 
 LEVEL = "exploration"
 SHARDS = {"quick": 16, "thorough": 16}
-MUST = ["accessor.cursor_moved_first", "accessor.order0", "accessor.order1", "accessor.order2", "create.contract_evaluations", "accessor.checks", "reframe.checks", "reject.checks", "word1.values", "word2.values"]
+MUST = ["accessor.cursor_moved_first", "accessor.order0", "accessor.order1", "accessor.order2", "create.contract_evaluations", "accessor.checks", "reframe.checks", "reframe.socket", "reframe.file-chunked", "reframe.file-short-reads", "reframe.bytes-prefixed", "reframe.twice", "reframe.beyond_20MB", "reject.checks", "word1.values", "word2.values"]
 RULE = ("create_ccsds_packet is called on enumerated field values; a postcondition compares the bytes with the "
         "model's bit-string layout (3+1+1+11+2+14+16 bits, length field = len(data)-1) and the harness compares "
-        "every accessor, re-frames the packet through ccsds_generator (bytes and BytesIO) and checks rejection of "
+        "every accessor, re-frames the packet through ccsds_generator (bytes, BytesIO, and in rotation: chunked file reads, short reads, a "
+        "scripted socket delivering it in pieces, with 0/1/3/8 foreign prefix bytes skipped, the packet twice; one stream of 322 "
+        "maximum-size constructed packets > 20 MB) and checks rejection of "
         "out-of-range values. Enumerated completely: each field over its whole range with the others at "
         "{0,max,random}; all pairwise boundary combinations of the 7 fields; all 2^16 values of header words 1 "
         "and 2 through the framer->accessor direction; data lengths 1..600, 2^k+-1, 65535, 65536 (thorough: all "
@@ -121,12 +125,35 @@ def check_packet(ctx, vals, data, reframe=True):
         ctx.violation("create/data", "data field differs", wit)
     if reframe:
         ctx.count("reframe.checks")
-        for kind, src in (("bytes", bytes(p)), ("file", io.BytesIO(bytes(p)))):
+        raw = bytes(p)
+        n = ctx.counters["reframe.checks"]
+        rr = ctx.rng("reframe", n)
+        k = (0, 3, 1, 8)[n % 4]                       # foreign bytes before the packet (skip_header_bytes)
+        rec = bytes([0xEE]) * k + raw
+        pieces = sorted({rr.randrange(1, len(rec)) for _ in range(rr.randrange(1, 4))}) if len(rec) > 1 else []
+        if n % 3 == 0 and len(rec) > 1:
+            pieces = sorted(set(pieces) | {len(rec) - 1 - rr.randrange(0, min(k + 1, len(rec) - 1))})   # a delivery border in the tail
+        sizes = [b - a for a, b in zip([0] + pieces, pieces + [len(rec)])]
+        sources = [("bytes", lambda: raw, {}), ("file", lambda: io.BytesIO(raw), {}),
+                   ("file-chunked", lambda: sources_mod.RecordingFile(rec, "full"), {"skip_header_bytes": k, "buffer_read_size_bytes": sizes[0]}),
+                   ("file-short-reads", lambda: sources_mod.RecordingFile(rec, "short", rr), {"skip_header_bytes": k, "buffer_read_size_bytes": max(1, len(rec) // 2)}),
+                   ("socket", lambda: sources_mod.ScriptedSocket(sources_mod.cut(rec, sizes), closed_by_peer=True), {"skip_header_bytes": k}),
+                   ("bytes-prefixed", lambda: rec, {"skip_header_bytes": k}),
+                   ("twice", lambda: raw + raw, {})]
+        for kind, mk, kw in sources[:2] + [sources[2 + n % 5]]:
             out = []
-            g = packets.ccsds_generator(src)
-            s = monitored(lambda: [out.append(x) for x in itertools.islice(g, 3)])
-            if s.exc is not None or [bytes(x) for x in out] != [bytes(p)]:
-                ctx.violation(f"reframe/{kind}", f"re-framing gave {len(out)} packets / exc {s.exc!r}", wit)
+            src = mk()
+            g = packets.ccsds_generator(src, **kw)
+            s = monitored(lambda: [out.append(x) for x in itertools.islice(g, 4)])
+            g.close()
+            if isinstance(src, sources_mod.ScriptedSocket):
+                src.close()
+            ctx.count(f"reframe.{kind}")
+            want_out = [raw, raw] if kind == "twice" else [raw]
+            if s.exc is not None or [bytes(x) for x in out] != want_out:
+                ctx.violation(f"reframe/{kind}", f"re-framing the constructed packet from a {kind} source gave {len(out)} packets of lengths "
+                              f"{[len(x) for x in out][:4]} / exc {s.exc!r}; expected {len(want_out)} x {len(raw)} bytes",
+                              dict(wit, source=kind, options={a: b for a, b in kw.items()}, deliveries=sizes))
     return p
 
 
@@ -233,6 +260,23 @@ def run(ctx):
             ctx.sig("word", word, v >> 12)
     ctx.exhaustive_space("all 2^16 values of header word 1 and of header word 2 (framer->accessor)", 2 * 65536 // ctx.nshards)
 
+    # ---- many maximum-size constructed packets in one stream (> 20 MB): the framer re-frames every one of them -----
+    if ctx.shard == 1 % ctx.nshards:
+        made = [packets.create_ccsds_packet(bytes([i & 0xFF]) * 65536, apid=i % 2048, sequence_count=i, sequence_flags=i % 4,
+                                            version_number=i % 8, type=i % 2, secondary_header_flag=(i // 2) % 2) for i in range(322)]
+        stream = b"".join(bytes(m) for m in made)
+        for kind, src, kw in (("bytes", stream, {}), ("file-chunked", io_mod.BytesIO(stream), {"buffer_read_size_bytes": 1 << 20})):
+            out = []
+            s = monitored(lambda: [out.append((len(x), x.apid, x.sequence_count, x.data_length, bytes(x[6:8]))) for x in packets.ccsds_generator(src, **kw)])
+            ctx.count("evaluations")
+            ctx.count("reframe.beyond_20MB")
+            exp = [(65542, i % 2048, i, 65535, bytes([i & 0xFF]) * 2) for i in range(322)]
+            if s.exc is not None or out != exp:
+                i = next((j for j, (a, b) in enumerate(zip(out, exp)) if a != b), min(len(out), len(exp)))
+                ctx.violation(f"reframe/{kind}/long-stream", f"322 constructed maximum-size packets ({len(stream)} bytes) re-framed as {len(out)} packets "
+                              f"(first difference at packet {i}); exc {s.exc!r}", {"source": kind, "first_difference": i, "yielded": len(out)})
+        del stream, made
+        ctx.sig("reframe", "beyond-20MB")
     # ---- rejection ---------------------------------------------------------------------------------------
     if ctx.mine(0) or True:
         for name, w in FIELDS:
